@@ -65,6 +65,7 @@ type c02env struct {
 	fails    map[int]bool
 	calls    []int
 	pulls    []int
+	asked    int // HasNext calls on the on-demand source (a HasNext may itself compute the next element)
 	errs     map[int]error
 	vars     []int // variant draws of dynamic cases
 	extra    string
@@ -84,6 +85,7 @@ func (e *c02env) checkHead(p int, got int) {
 func (e *c02env) reset() {
 	e.calls = e.calls[:0]
 	e.pulls = e.pulls[:0]
+	e.asked = 0
 }
 
 // c02src is an on-demand source of the elements 1..n: an element exists only once it has been pulled, and every pull is logged.
@@ -93,7 +95,7 @@ func c02src(e *c02env, n int) fp.Iterator[int] {
 
 func c02srcOf[T any](e *c02env, n int, mk func(i int) T) fp.Iterator[T] {
 	next := 1
-	return fp.MakeIterator(func() bool { return next <= n }, func() T {
+	return fp.MakeIterator(func() bool { e.asked++; return next <= n }, func() T {
 		if next > n {
 			panic("next on exhausted source")
 		}
@@ -415,6 +417,20 @@ func c02Combinator(r *sim.Run) {
 				}
 			}
 			r.Probe("on-demand-sources-checked")
+			// after the failing element the source is not consulted again at all: on sources whose HasNext does the work
+			// (TakeWhile, scanners) one more HasNext is one more element computed
+			failed := false
+			for p := 1; p <= cs.srcN; p++ {
+				failed = failed || e.fails[p]
+			}
+			maxAsked := len(expPulls) + 1
+			if failed {
+				maxAsked = len(expPulls)
+			}
+			if e.asked > maxAsked && fmt.Sprint(e.pulls) == fmt.Sprint(expPulls) {
+				r.Violate("source-overpulled:"+fam, "%s asked its on-demand source HasNext %d times for %d pulled element(s) (want at most %d: nothing is asked after the first failing element)", desc(), e.asked, len(e.pulls), maxAsked)
+				return false
+			}
 			if fmt.Sprint(e.pulls) != fmt.Sprint(expPulls) {
 				r.Violate("source-overpulled:"+fam, "%s pulled elements %v from its on-demand source, want %v (nothing after the first failing element)", desc(), e.pulls, expPulls)
 				return false
